@@ -491,7 +491,7 @@ def atom_deps(a):
     if tag == 'U': return set(a[6])
     if tag == 'P': return set(a[3])
     if tag == 'F': return set(a[3])
-    if tag in ('Mean', 'Sum'): return a[2].deps() - {a[1]}
+    if tag in ('Mean', 'Sum'): return a[2].deps() - set(a[1])
     if tag == 'Abs': return a[1].deps()
     if tag == 'Inv': return a[1].deps()
     if tag == 'Log': return atom_deps(a[1])
@@ -529,7 +529,7 @@ def fmt_atom(a):
     if tag == 'P': return ("sg:" if a[4] else "") + f"{a[1]}" + ("".join(f"[{i}]" for i in a[2]))
     if tag == 'K': return str(a[1])
     if tag == 'F': return f"{a[1]}" + (f"[{a[2]}]" if a[2] is not None else "")
-    if tag in ('Mean', 'Sum'): return f"{tag}[{a[1]}]({a[2]})"
+    if tag in ('Mean', 'Sum'): return f"{tag}[{','.join(a[1])}]({a[2]})"
     if tag == 'Abs': return f"|{a[1]}|"
     if tag == 'Inv': return f"1/({a[1]})"
     if tag == 'Log': return f"log({fmt_atom(a[1])})"
@@ -988,8 +988,14 @@ def bind(kind, ax, p):
             else:
                 res = res + Poly({ind: v})
         else:
-            inner = Poly({dep: Fraction(1)})
-            res = res + Poly({ind: v}) * Poly.atom((kind, ax, inner))
+            axes = (ax,)
+            if len(dep) == 1 and dep[0][1] == 1 and dep[0][0][0] == kind:
+                # nested binder of the same kind: Mean[a](Mean[b](p)) = Mean[a,b](p)
+                axes = tuple(sorted(set(dep[0][0][1]) | {ax}))
+                inner = dep[0][0][2]
+            else:
+                inner = Poly({dep: Fraction(1)})
+            res = res + Poly({ind: v}) * Poly.atom((kind, axes, inner))
     return res
 
 
@@ -1079,6 +1085,10 @@ def jnp_reshape(a, shape):
             raise Top("reshape with -1 on a symbolic tensor")
     core = [x for x in tgt if x != 1]
     if core != src:
+        if [x for x in core if not isinstance(x, int)] == [x for x in src if not isinstance(x, int)]:
+            import math
+            if math.prod([x for x in core if isinstance(x, int)]) != math.prod([x for x in src if isinstance(x, int)]):
+                raise Finding(f"cannot reshape a tensor with axes {a.axes} to {tuple(tgt)} (different number of elements)")
         raise Top(f"reshape of symbolic tensor {a.axes} to {tgt}")
     return AT(tuple(tgt), a.data.reshape(tuple(x for x in tgt if isinstance(x, int))))
 
@@ -1247,12 +1257,16 @@ GRID_NAMES = None   # set by meshgrid callers through context when time-first na
 
 def jnp_meshgrid(*vecs, indexing="xy"):
     """grid axes are named after the coordinate that varies along them (Gt, G0, G1, ...), so that the
-    axis order can be compared with the network's grid convention (time first, then x0, x1, ...)"""
+    axis order can be compared with the network's grid convention (time first, then x0, x1, ...);
+    vectors with a concrete axis keep a concrete grid axis"""
     vecs = [to_at(v) for v in vecs]
     names = []
     for k, v in enumerate(vecs):
-        if len(v.axes) != 1 or isinstance(v.axes[0], int):
+        if len(v.axes) != 1:
             raise Top(f"meshgrid input with axes {v.axes}")
+        if isinstance(v.axes[0], int):
+            names.append(v.axes[0])
+            continue
         a = v.data[()].single_atom()
         vk = var_key(a) if a is not None else None
         if vk == 'T':
@@ -1261,18 +1275,33 @@ def jnp_meshgrid(*vecs, indexing="xy"):
             names.append(f"G{vk[1]}")
         else:
             names.append(f"M{k}")
-    if len(set(names)) != len(names):
+    sym = [n for n in names if not isinstance(n, int)]
+    if len(set(sym)) != len(sym):
         raise Finding(f"meshgrid over repeated coordinates {names}")
-    outs = []
     order = list(range(len(vecs)))
     if indexing == "xy" and len(vecs) >= 2:
         order[0], order[1] = 1, 0
     elif indexing not in ("xy", "ij"):
         raise Top(f"meshgrid indexing {indexing!r}")
+    out_axes = tuple(names[o] for o in order)
+    cshape = tuple(a for a in out_axes if isinstance(a, int))
+    cpos = {}      # input index -> position among concrete output axes
+    ci = 0
+    for o in order:
+        if isinstance(names[o], int):
+            cpos[o] = ci
+            ci += 1
+    outs = []
     for k, v in enumerate(vecs):
-        src = v.axes[0]
-        p = rename_dep(v.data[()], src, names[k])
-        outs.append(AT(tuple(names[o] for o in order), _box(p)))
+        dat = np.empty(cshape, dtype=object)
+        if isinstance(names[k], int):
+            for idx in np.ndindex(cshape):
+                dat[idx] = v.data[idx[cpos[k]]]
+        else:
+            p = rename_dep(v.data[()], v.axes[0], names[k])
+            for idx in np.ndindex(cshape):
+                dat[idx] = p
+        outs.append(AT(out_axes, dat))
     return outs
 
 
